@@ -17,20 +17,25 @@ Require Import V.lib.Bytes V.models.Notices V.proofs.NoticesProofs.
 Require V.gen.NoticeTypes.
 Open Scope Z_scope.
 
+(* Histories (`list event`) contain additions, polls and RESTARTS (ERestart: the checkpoint payload written by
+   State.MarshalJSON is read back by state.ReadState; the client keeps its cursor) anywhere; clock readings are arbitrary,
+   in particular they need not advance across a restart. `persist_ok` (all notice fields written and restored, among them
+   lastNoticeTimestamp) is evaluated on gen/NoticeTypes.v, regenerated from overlord/state/state.go on every run. *)
+
 (* every new-or-repeated occurrence gets an occurrence time strictly greater than all earlier ones, whatever the
    clock reads (flag_stamps lists the last-repeated times handed out to the new-or-repeated additions, in order) *)
-Theorem C08_timestamps_strict : forall l : list addargs,
-  forallb add_server_clock l = true -> StronglySorted Z.lt (flag_stamps empty_state l).
-Proof. exact timestamps_strict. Qed.
+Theorem C08_timestamps_strict : forall l : list event,
+  forallb ev_server_clock l = true -> StronglySorted Z.lt (flag_stamps empty_state l).
+Proof. exact (timestamps_strict (eq_refl : persist_ok = true)). Qed.
 Print Assumptions C08_timestamps_strict.
 
 (* ... and strictly greater than the last-repeated time of every notice in the state *)
-Theorem C08_new_stamp_after_all : forall l a st' id,
-  forallb add_server_clock l = true -> a_time a = None ->
-  add_notice (reach l) a = Some (st', true, id) ->
+Theorem C08_new_stamp_after_all : forall (l : list event) a st' id,
+  forallb ev_server_clock l = true -> a_time a = None ->
+  add_notice (state_after empty_state l) a = Some (st', true, id) ->
   exists n', find (same_key (a_user a) (a_type a) (a_key a)) (s_notices st') = Some n' /\
-             forall m, In m (s_notices (reach l)) -> n_lr m < n_lr n'.
-Proof. exact new_stamp_after_all. Qed.
+             forall m, In m (s_notices (state_after empty_state l)) -> n_lr m < n_lr n'.
+Proof. exact (new_stamp_after_all (eq_refl : persist_ok = true)). Qed.
 Print Assumptions C08_new_stamp_after_all.
 
 (* exactly once: in every history, every answer `out` to a poll of a client with filter f consists exactly of the
@@ -45,7 +50,7 @@ Theorem C08_exactly_once : forall (f : nfilter) (evs : list event) (out : list n
   (forall k, In k pend -> key_static_match f k = true -> exists n, In n out /\ key_of n = k) /\
   NoDup (map key_of out) /\
   StronglySorted le_lr out.
-Proof. exact exactly_once. Qed.
+Proof. exact (exactly_once (eq_refl : persist_ok = true)). Qed.
 Print Assumptions C08_exactly_once.
 
 (* occurrence order: the order inside an answer is strict (no two notices share a last-repeated time), and by
@@ -54,7 +59,7 @@ Theorem C08_occurrence_order : forall (f : nfilter) (evs : list event) (out : li
   forallb ev_server_clock evs = true ->
   In (out, pend) (hrun f empty_state None [] evs) ->
   StronglySorted lt_lr out.
-Proof. exact answers_strictly_ordered. Qed.
+Proof. exact (answers_strictly_ordered (eq_refl : persist_ok = true)). Qed.
 Print Assumptions C08_occurrence_order.
 
 (* repeat-after: a re-occurrence is new-or-repeated exactly when repeat-after is zero or the (bumped) occurrence time
@@ -137,10 +142,25 @@ Theorem C08_no_explicit_time_call_site : NoticeTypes.explicit_time_sites = [].
 Proof. reflexivity. Qed.
 Print Assumptions C08_no_explicit_time_call_site.
 
+(* the restart case is not vacuous and the restored floor is what makes it work: with a reload that forgets
+   lastNoticeTimestamp, the notice added after the restart at the same clock tick is stamped at or before the client's
+   cursor and never delivered; with the real reload it is delivered *)
+Theorem C08_forgetful_restart_loses_notice :
+  map (fun r => (map n_id (fst r), List.length (snd r))) (hrun_forgetful no_filter empty_state None [] lost_after_restart_evs)
+    = [([1%N], 2%nat); ([], 1%nat)] /\
+  map (fun r => (map n_id (fst r), List.length (snd r))) (hrun no_filter empty_state None [] lost_after_restart_evs)
+    = [([1%N], 2%nat); ([2%N], 1%nat)].
+Proof. exact forgetful_restart_loses_notice. Qed.
+Print Assumptions C08_forgetful_restart_loses_notice.
+
+Theorem C08_restart_keeps_state : forall st, restart st = st.
+Proof. exact (restart_id (eq_refl : persist_ok = true)). Qed.
+Print Assumptions C08_restart_keeps_state.
+
 (* ---- non-vacuity: a history with same-tick and backwards clocks, a suppressed repeat and two polls *)
 Example C08_history : list event :=
   [EAdd (mkA 10 None (ty 1) (ky 0) 0 None); EAdd (mkA 10 (Some 1000%N) (ty 0) (ky 1) 0 None); EPoll;
-   EAdd (mkA 3 None (ty 1) (ky 0) 100 None); EAdd (mkA 3 (Some 1000%N) (ty 0) (ky 1) 0 None); EPoll].
+   ERestart; EAdd (mkA 3 None (ty 1) (ky 0) 100 None); EAdd (mkA 3 (Some 1000%N) (ty 0) (ky 1) 0 None); EPoll].
 Example C08_history_server_clock : forallb ev_server_clock C08_history = true.
 Proof. reflexivity. Qed.
 Example C08_history_answers :
@@ -148,7 +168,8 @@ Example C08_history_answers :
   = [([1%N; 2%N], [10; 11], 2%nat); ([2%N], [13], 1%nat)].
 Proof. vm_compute. reflexivity. Qed.
 Example C08_stamps_example :
-  flag_stamps empty_state [mkA 10 None (ty 1) (ky 0) 0 None; mkA 10 None (ty 1) (ky 1) 0 None; mkA 3 None (ty 1) (ky 0) 0 None]
+  flag_stamps empty_state [EAdd (mkA 10 None (ty 1) (ky 0) 0 None); EAdd (mkA 10 None (ty 1) (ky 1) 0 None); ERestart;
+                           EAdd (mkA 3 None (ty 1) (ky 0) 0 None)]
   = [10; 11; 12].
 Proof. vm_compute. reflexivity. Qed.
 Example C08_api_nonroot_example :
